@@ -149,10 +149,12 @@ func (p *parser) finishStatement(stmt ast.Statement) ast.Statement {
 	// p.checkStatement(stmt)
 
 	cur := p.cur
-	count, err := p.expressionOrErr()
+	count, err, warnings := p.expressionOrErr()
 	p.panicMode = false
 	if p.peek().Type == token.COUNT_MAL {
 		p.checkStatement(stmt)
+		// warnings are passed on as warnings, they must not start the panic mode (which would hide later errors)
+		apply(p.errorHandler, warnings)
 		if err != nil {
 			p.errVal(*err)
 		}
